@@ -28,7 +28,7 @@ class Opts:
         self.avoid_multidim_narrow = True   # C04: stores into multi-dimensional arrays are not range checked
         self.avoid_print_retry = True       # C01/C03: println re-evaluates an argument whose evaluation failed
         self.avoid_multi_index_order = True # C03: indices of a multi-dimensional access are evaluated right to left
-        self.avoid_ternary_multidim = True  # C01/C10: a ?: branch that mentions a multi-dimensional element crashes the interpreter (SIGSEGV)
+        self.avoid_ternary_multidim = False # C01/C10: a ?: branch that mentions a multi-dimensional element crashes the interpreter (SIGSEGV)
         self.avoid_return_elem = True       # C04/C10: `return m[i][j];` (bare multi-dim element) loses the range check / crashes the caller
         self.max_stmts = 8
         self.max_depth = 3
